@@ -42,6 +42,9 @@ type Case struct {
 	StopUs    int    `json:"stop_after_start_us"` // -1: after the history
 	RefuseNth int    `json:"close_every_nth_conn_inside_onopen,omitempty"`
 	Shutdown  bool   `json:"shutdown_ctx"`
+	// YieldPerMille (instrumented build only): probability, in 1/1000, with which every lock / unlock
+	// statement of the library yields the processor or sleeps 1-50 us (schedule perturbation)
+	YieldPerMille int `json:"yield_per_mille,omitempty"`
 }
 
 var frameRE = regexp.MustCompile(`lesismal/nbio[^\s]*`)
@@ -114,6 +117,7 @@ func init() {
 }
 
 func runCase(c Case) vlib.Result {
+	defer vlib.Yield(c.YieldPerMille, 0x5eed)()
 	res := vlib.Result{Classes: []string{"kind=" + c.Kind, "mode=" + c.Mode}}
 	vlib.Logs.Take()
 	time.Sleep(2 * time.Millisecond)
@@ -508,6 +512,9 @@ func gen(t *rapid.T) Case {
 	c.Storm = rapid.IntRange(0, 2).Draw(t, "storm") == 0
 	c.RaceWrite = rapid.IntRange(0, 2).Draw(t, "racewrite") == 0
 	c.Shutdown = rapid.IntRange(0, 3).Draw(t, "shutdown") == 0
+	if vlib.YieldAvailable {
+		c.YieldPerMille = rapid.SampledFrom([]int{0, 0, 20, 100, 300}).Draw(t, "yield")
+	}
 	return c
 }
 
